@@ -86,6 +86,7 @@ var regScens = []regScen{
 	{Name: "one-plugin-two-creators", Plugins: []string{"good"}, Threads: [][]rop{{{"create", "c1"}}, {{"create", "c2"}}}, Bound: [2]int{3, 5}},
 	{Name: "two-plugins-one-creator", Plugins: []string{"good", "good"}, Threads: [][]rop{{{"create", "c1"}}}, Bound: [2]int{3, 5}},
 	{Name: "one-plugin-creator-and-events", Plugins: []string{"good"}, Threads: [][]rop{{{"create", "c1"}, {"create", "c2"}}, {{"event", "e1"}}}, Bound: [2]int{3, 5}},
+	{Name: "two-plugins-two-creators", Plugins: []string{"good", "good"}, Threads: [][]rop{{{"create", "c1"}}, {{"create", "c2"}}}, Bound: [2]int{2, 4}},
 	{Name: "failed-sync-then-good", Plugins: []string{"syncfail", "good"}, Threads: [][]rop{{{"create", "c1"}}}, Bound: [2]int{3, 5}},
 	{Name: "bad-handshake-then-good", Plugins: []string{"badindex", "good"}, Threads: [][]rop{{{"create", "c1"}}}, Bound: [2]int{3, 5}},
 }
